@@ -461,6 +461,103 @@ func runC15(r *Run) {
 		r.atLeast("session methods that wipe the data", n, 1)
 	})
 
+	r.rule("R10", "a pooled buffer goes back empty on every path: in every function of the package that takes a *bytes.Buffer from a sync.Pool, each Put of it is preceded by its Reset — as plain calls on every path from the Get, or as deferred calls registered so that the Reset runs first (defers run last-in first-out) — the encoder writes type information into the buffer before it fails, a buffer returned after a failed Encode corrupts the next session that is saved or loaded through it (E1 pairing)", func() {
+		n := 0
+		r.P.AllFuncs(sessPkg, func(f *ssa.Function) {
+			if len(f.Blocks) == 0 {
+				return
+			}
+			isBuf := func(t types.Type) bool {
+				pt, ok := t.(*types.Pointer)
+				return ok && namedTypeName(pt.Elem()) == "Buffer"
+			}
+			type site struct {
+				in     ssa.Instruction
+				defers bool
+			}
+			var puts, resets []site
+			var bufs []ssa.Value
+			for _, b := range f.Blocks {
+				for _, in := range b.Instrs {
+					var cc *ssa.CallCommon
+					deferred := false
+					switch x := in.(type) {
+					case *ssa.Call:
+						cc = &x.Call
+					case *ssa.Defer:
+						cc, deferred = &x.Call, true
+					default:
+						continue
+					}
+					switch nm := calleeName(cc); {
+					case nm == "(*sync.Pool).Put" && len(cc.Args) == 2:
+						arg := stripValue(cc.Args[1])
+						if isBuf(arg.Type()) {
+							puts = append(puts, site{in, deferred})
+							bufs = append(bufs, arg)
+						}
+					case nm == "(*bytes.Buffer).Reset":
+						resets = append(resets, site{in, deferred})
+					}
+				}
+			}
+			for i, p := range puts {
+				n++
+				ok := false
+				buf := bufs[i]
+				sameBuf := func(in ssa.Instruction) bool {
+					var cc *ssa.CallCommon
+					switch x := in.(type) {
+					case *ssa.Call:
+						cc = &x.Call
+					case *ssa.Defer:
+						cc = &x.Call
+					}
+					return cc != nil && len(cc.Args) > 0 && stripValue(cc.Args[0]) == buf
+				}
+				if p.defers {
+					// a deferred Reset registered after the deferred Put, on every path to a return
+					for _, rs := range resets {
+						if rs.defers && sameBuf(rs.in) {
+							if _, hit := reach(pointAfter(p.in), isReturn, nil, func(y ssa.Instruction) bool { return y == rs.in }); hit == nil {
+								ok = true
+							}
+						}
+					}
+					// … or plain Resets on every path from the registration to a return
+					if !ok {
+						_, hit := reach(pointAfter(p.in), isReturn, nil, func(y ssa.Instruction) bool {
+							_, isCall := y.(*ssa.Call)
+							return isCall && calleeName(y.(*ssa.Call).Common()) == "(*bytes.Buffer).Reset" && sameBuf(y)
+						})
+						ok = hit == nil
+					}
+				} else {
+					// plain Put: from the place the buffer was taken, no path reaches it without a plain Reset
+					var get ssa.Instruction
+					dependsOn(buf, func(v ssa.Value) bool {
+						c, isCall := v.(*ssa.Call)
+						if isCall && calleeName(&c.Call) == "(*sync.Pool).Get" {
+							get = c
+							return true
+						}
+						return false
+					})
+					if get != nil {
+						_, hit := reach(pointAfter(get), func(y ssa.Instruction) bool { return y == p.in }, nil, func(y ssa.Instruction) bool {
+							c, isCall := y.(*ssa.Call)
+							return isCall && calleeName(&c.Call) == "(*bytes.Buffer).Reset" && sameBuf(y)
+						})
+						ok = hit == nil
+					}
+				}
+				r.check(ok, fmt.Sprintf("%s:Put#%d:buffer-reset-before-it-goes-back", f.Name(), i+1), r.pos(p.in), "the buffer is Reset before it is handed back to the pool on every path",
+					"a pooled buffer can go back to the pool with content: after a failed Encode (an unregistered value type) the encoder has already written its type definitions — the next session saved through this buffer stores a corrupt record, the next one loaded through it fails to decode (`gob: duplicate type received`)")
+			}
+		})
+		r.atLeast("Put sites of pooled buffers in the session package", n, 2)
+	})
+
 	r.rule("R9", "the id kept in the request's locals is one generated during this request: every write of the locals id key in the package passes the KeyGenerator result (getSession reads an id found there as newly issued and stamps a new absolute deadline) (E3, who-may-write)", func() {
 		n, nk := 0, 0
 		keySeen := map[ssa.Instruction]bool{}
